@@ -342,6 +342,28 @@ def run(index, rep, tier):
         rep.rule("R19.12", "an exported or cloned matrix keeps the state alphabets of its source: the subclass constructors do not overwrite what the copy-construction route took over (C12 R12.8)")
         rep.floor("R19.12", "borrowed obligations", 1, borrow(index, rep, "C12", {"R12.8"}, "R19.12"))
 
+    # ---- R19.13 a sequence can be extended by itself
+    with rep.section("R19.13"):
+        rep.rule("R19.13", "extending terminates for repeated objects: CharacterDataSequence iterates lazily over its own value list (its __iter__ is a generator), so extend() materialises its argument before growing that list - m.extend_matrix(m) hands every row to its own extend()")
+        seq = index.klass("dendropy.datamodel.charmatrixmodel.CharacterDataSequence")
+        it = seq.methods.get("__iter__") or seq.methods.get("__next__")
+        nx = seq.methods.get("__next__")
+        lazy = any(isinstance(y, (ast.Yield, ast.YieldFrom)) for mm in (it, nx) if mm is not None for y in ast.walk(mm.node))
+        ext = seq.methods["extend"]
+        g = cfg_of(ext)
+        p_ = [x for x in ext.params if x != "self"][0]
+        grows = [nd for nd in g.nodes for c in node_calls(nd) if call_name(c) == "extend" and norm(c.func.value) == "self._character_values" and c.args]
+        if not grows:
+            raise AnalysisError("R19.13: CharacterDataSequence.extend no longer grows self._character_values with extend()")
+        for nd in grows:
+            arg = [c for c in node_calls(nd) if call_name(c) == "extend" and norm(c.func.value) == "self._character_values"][0].args[0]
+            direct = isinstance(arg, ast.Name) and arg.id == p_
+            mat = lambda x: x.kind == "stmt" and isinstance(x.ast, ast.Assign) and norm(x.ast.targets[0]) == p_ and isinstance(x.ast.value, ast.Call) and isinstance(x.ast.value.func, ast.Name) and x.ast.value.func.id in ("list", "tuple")
+            ok = (not lazy) or (not direct) or g.dominated_by(nd, mat, follow_exc=False)
+            rep.check(ok, "R19.13", ext.qualname, "value list extended from a lazy view that may be itself", fn_where(ext, nd.stmt), "extend() materialises `%s` before growing the value list" % p_,
+                      "CharacterDataSequence.extend grows self._character_values directly from `%s`; when that is the sequence itself - m.extend_matrix(m), m.extend_sequences(m), seq.extend(seq) - its __iter__ is a generator over the very list being appended to, so the call never returns and memory grows without bound" % p_)
+        rep.floor("R19.13", "growth sites in CharacterDataSequence.extend", 1, len(grows))
+
 
 def _r19_3(rep, fi, seeds):
     t = tainted_names(fi, seeds)
